@@ -135,7 +135,8 @@ def havoc_for_loop(ex, st, body_stmts, extra_names=(), heap=True):
             if nm in f:
                 v = f[nm]
                 if isinstance(v, V):
-                    nv = S.fresh(nm, v.ty)
+                    ty = "bv64" if (ex.fr.contract is not None and nm in ex.fr.contract.bv_locals and v.ty in ("int", "bv64")) else v.ty
+                    nv = S.fresh(nm, ty)
                     kc = S.kind_constraint(nv)
                     if kc is not None:
                         st.assume(kc)
@@ -199,7 +200,7 @@ def for_(ex, st, s):
         kind, payload = iter_sequence(ex, st1, itv)
         if kind == "pyiter":
             t = payload
-            ok = z3.Or(Py.is_list(t), Py.is_tuple(t), Py.is_dict(t), Py.is_set(t))
+            ok = z3.Or(Py.is_list(t), Py.is_tuple(t), Py.is_dict(t), Py.is_set(t), Py.is_bytes(t))
             for st2, r in ex.need(st1, ok, "TypeError", "iter"):
                 if r is not None:
                     yield st2, (RAISE, r)
@@ -243,6 +244,7 @@ def element(ex, st, kind, payload, i):
     if kind == "seq":
         return ex.narrow(st, V("py", payload[i]))
     if kind == "bytes":
+        st.assume(z3.And(payload[i] >= 0, payload[i] <= 255))       # type invariant of bytes
         return V("int", payload[i])
     if kind == "range":
         lo, hi, step = payload
